@@ -57,6 +57,7 @@ def units(tier, seed):
             out.append({"kind": "mappings", "pool_ranges": pool_r, "len": ln, "level": level, "block": b,
                         "nblocks": nb, "name": f"mappings/pool<={pool_r}ranges/len<={ln}/{level}#{b}/{nb}"})
 
+    out.append({"kind": "aliasing", "depth": 3 if q else 4, "name": "aliasing(original/copy histories)"})
     if q:
         add(1, 2, "full", 8)
         add(1, 3, "pal", 32)
@@ -338,9 +339,90 @@ def check_mapping_seq(descs, res, level="full"):
                     size=size)
 
 
+def check_aliasing(res, depth):
+    """Histories over TWO mappings, an original and a copy taken from it (plus a slice): appends / mirror
+    registrations on one must never show up in the other.  Every history of `depth` actions is run on fresh
+    objects and both mappings are compared with independently tracked reference states after every action."""
+    pool = [([0, 1, 0], False), ([1, 0, 2], False), ([0, 2, 1], True)]
+    src_descs = [pool[0], (pool[0][0], True)]
+    src_pairs = [(0, 1)]
+    actions = []
+    for who in ("M", "K"):
+        for k in range(len(pool)):
+            actions.append((who, "append_map", k))
+        actions.append((who, "append_map+mirror", 1))
+        actions.append((who, "append_mapping", None))
+        actions.append((who, "append_mapping_inverted", None))
+    actions.append(("M", "copy->K", None))
+    positions = range(0, 7)
+    n = 0
+    for start in ("plain", "mirrored"):
+        for seq in itertools.product(range(len(actions)), repeat=depth):
+            if start == "plain":
+                M = Mapping([mk_map(pool[0])])
+                refM = {"descs": [pool[0]], "pairs": []}
+            else:
+                M = Mapping([mk_map(pool[0]), mk_map((pool[0][0], True))], [0, 1])
+                refM = {"descs": [pool[0], (pool[0][0], True)], "pairs": [(0, 1)]}
+            K = M.copy()
+            refK = {"descs": list(refM["descs"]), "pairs": list(refM["pairs"])}
+            hist = []
+            ok = True
+            for idx in seq:
+                who, act, arg = actions[idx]
+                hist.append([who, act, arg])
+                live, ref = (M, refM) if who == "M" else (K, refK)
+                res.transitions += 1
+                try:
+                    if act == "append_map":
+                        live.append_map(mk_map(pool[arg]))
+                        ref["descs"].append(pool[arg])
+                    elif act == "append_map+mirror":
+                        live.append_map(mk_map((pool[0][0], True)), len(ref["descs"]) - 1)
+                        ref["pairs"].append((len(ref["descs"]) - 1, len(ref["descs"])))
+                        ref["descs"].append((pool[0][0], True))
+                    elif act == "append_mapping":
+                        base_n = len(ref["descs"])
+                        live.append_mapping(Mapping([mk_map(d) for d in src_descs], [0, 1]))
+                        ref["descs"].extend(src_descs)
+                        ref["pairs"].extend((a + base_n, b + base_n) for a, b in src_pairs)
+                    elif act == "append_mapping_inverted":
+                        base_n = len(ref["descs"])
+                        live.append_mapping_inverted(Mapping([mk_map(d) for d in src_descs], [0, 1]))
+                        inv = [(d[0], not d[1]) for d in reversed(src_descs)]
+                        ref["descs"].extend(inv)
+                        ref["pairs"].extend((base_n + len(src_descs) - 1 - a, base_n + len(src_descs) - 1 - b)
+                                            for a, b in src_pairs)
+                    else:
+                        K = M.copy()
+                        refK = {"descs": list(refM["descs"]), "pairs": list(refM["pairs"])}
+                except Exception as e:  # noqa: BLE001
+                    res.violate("c08.aliasing.raises", {"kind": "aliasing", "start": start, "history": hist},
+                                common.exc_str(e), fingerprint="c08.aliasing.raises:" + common.exc_fp(e), size=len(hist))
+                    ok = False
+                    break
+                for name, lv, rf in (("M", M, refM), ("K", K, refK)):
+                    if not compare_mapping(lv, rf["descs"], rf["pairs"], 0, len(rf["descs"]), res,
+                                           {"kind": "aliasing", "start": start, "history": hist, "object": name},
+                                           len(hist), positions):
+                        ok = False
+                        break
+                if not ok:
+                    break
+            n += 1
+            res.states += 1
+    res.sample({"kind": "aliasing", "histories": n, "depth": depth})
+    return n
+
+
 def run_unit(u):
     res = engine.UnitResult(PROPERTY_ID)
     n = 0
+    if u["kind"] == "aliasing":
+        n = check_aliasing(res, u["depth"])
+        res.scopes.append({"unit": u["name"], "histories": n, "completed": True})
+        res.evaluations = res.transitions
+        return res
     if u["kind"] == "maps":
         ms = all_maps(u["max_ranges"])
         for i in range(u["block"], len(ms), u["nblocks"]):
@@ -367,6 +449,9 @@ def run_unit(u):
 
 def replay(case):
     res = engine.UnitResult(PROPERTY_ID)
+    if case["kind"] == "aliasing":
+        check_aliasing(res, len(case["history"]))
+        return res.violations
     if case["kind"] == "map":
         check_map(case["ranges"], case["inverted"], res)
     else:
